@@ -7,10 +7,11 @@ from ECAgent.Core import Model, Agent, System
 
 
 class M(Model):
-    __slots__ = ['per', 'all', 'plan', 'k']
+    __slots__ = ['per', 'all', 'plan', 'k', 'fails']
 
     def __init__(self):
         super().__init__(logger=NULL_LOGGER)
+        self.fails = None
 
 
 def agent_collect_step(n: int, r0: bool, r1: bool, r2: bool, v0: int, v1: int, v2: int, comp: int, cv: int,
@@ -126,6 +127,76 @@ def composite_shared(incl: bool, has: bool, v0: int, v1: int, v2: int) -> bool:
     return hx.end(True)
 
 
+class CallbackError(Exception):
+    pass
+
+
+def agent_callback_fails(fail_at: int, leaver: int, v0: int, v1: int, v2: int, w0: int, w1: int, w2: int, where: int,
+                         q0: bool, q1: bool, q2: bool) -> bool:
+    """
+    pre: 0 <= fail_at < 3 and 0 <= leaver <= 3 and 0 <= where < 2
+    post: _
+    """
+    # a user callback raises in the middle of one collection (the driver loop handles the error and carries on), the
+    # population changes, the next collection takes place: its record holds exactly the results of THAT collection
+    hx.begin()
+    m = M()
+    agents = []
+    for i in range(3):
+        a = Agent("a%d" % i, m)
+        m.environment.add_agent(a)
+        agents.append(a)
+    step = [0]
+    first, second, quiet = [v0, v1, v2], [w0, w1, w2], [q0, q1, q2]
+
+    def agent_func(a):
+        for i in range(3):
+            if a is agents[i]:
+                if step[0] == 0:
+                    if where == 0 and i == fail_at:
+                        raise CallbackError("per-agent function failed for a%d" % i)
+                    return first[i]
+                return None if quiet[i] else second[i]          # (an agent may have nothing to report the second time)
+        return "stranger"
+
+    def comp_func(d):
+        if step[0] == 0 and where == 1:
+            raise CallbackError("composite function failed")
+        return {"total": 7}
+    c = Col.AgentCollector(m, agent_func, comp_func)
+    m.systems.add_system(c)
+    try:
+        m.execute()
+        return hx.end(hx.fail("the callback's error did not reach the caller"))
+    except CallbackError:
+        hx.reach('callback_failed')
+    n_after_failure = len(c.records)
+    m.systems.timestep = 1           # (the error left execute() early: the driver advances the clock itself)
+    step[0] = 1
+    present = list(agents)
+    if leaver < 3:
+        gone = hx.pick(agents, leaver)
+        m.environment.remove_agent(gone.id)
+        present = [a for a in agents if a is not gone]
+        hx.reach('one_left')
+    m.execute()
+    exp = {}
+    for i in range(3):
+        if agents[i] in present and not quiet[i]:
+            exp["a%d" % i] = second[i]
+    exp["total"] = 7
+    if len(c.records) != n_after_failure + 1:
+        return hx.end(hx.fail("number of records after the next collection", got=len(c.records), before=n_after_failure))
+    rec = c.records[-1]
+    if list(rec.keys()) != list(exp.keys()):
+        return hx.end(hx.fail("record after a failed collection holds other entries than that collection's", got=list(rec.keys()),
+                              exp=list(exp.keys())))
+    for k in exp:
+        if rec[k] != exp[k]:
+            return hx.end(hx.fail("value in the record after a failed collection", key=k, got=rec[k], exp=exp[k]))
+    return hx.end(True)
+
+
 class Churn(System):
     """priority-0 system that changes the population according to a plan {timestep offset: (+1 | -1)}; optionally it
     first replaces the model's environment by a fresh one (carrying the residents over) at step `swap_at`"""
@@ -206,6 +277,8 @@ class FC(Col.FileCollector):
     def collect(self):
         m = self.model
         k = m.k                      # concrete step counter kept by the harness
+        if getattr(m, "fails", None) is not None and m.fails[k]:
+            raise CallbackError("collect() failed before collecting anything")
         for j in range(m.per[k]):
             r = "t%d.%d;" % (k, j)
             self.records.append(r)
@@ -305,6 +378,57 @@ def file_open_fails(wc: int, fail_at: int, c0: int, c1: int, c2: int, c3: int) -
         del Col.open
 
 
+def file_collect_fails(wc: int, f0: bool, f1: bool, f2: bool, f3: bool, f4: bool) -> bool:
+    """
+    pre: 0 <= wc <= 2
+    post: _
+    """
+    # collect() - the documented extension point - raises in some timesteps before collecting anything (the driver loop
+    # handles it): the flush cadence counts COLLECTIONS, i.e. a flush after every (write_count+1)-th successful one
+    hx.begin()
+    steps = hx.P['steps']
+    fs = FakeFS()
+    Col.open = fs.open
+    try:
+        m = M()
+        m.per = [1] * 8
+        m.fails = [f0, f1, f2, f3, f4, False, False, False]
+        m.all = []
+        m.systems.timestep = 0
+        fc = FC("f", m, "out.txt", write_count=wc)
+        m.systems.add_system(fc)
+        ncol = 0
+        for step in range(steps):
+            m.k = step
+            before = list(fs.files.get("out.txt", []))
+            try:
+                m.execute()
+                ok = True
+            except CallbackError:
+                ok = False
+                hx.reach('collect_failed')
+                m.systems.timestep = step + 1
+            written = fs.files.get("out.txt", [])
+            if written + fc.records != m.all:
+                return hx.end(hx.fail("written ++ held != collected", step=step, written=written, held=fc.records))
+            if ok:
+                ncol += 1
+                if ncol % (wc + 1) == 0:
+                    if fc.records:
+                        return hx.end(hx.fail("no flush after the (write_count+1)-th collection", step=step, write_count=wc,
+                                              collections=ncol))
+                    if ncol < step + 1:
+                        hx.reach('flush_after_failures')
+                elif written != before:
+                    return hx.end(hx.fail("flushed before (write_count+1) collections were made", step=step, write_count=wc,
+                                          collections=ncol, failed_steps=[i for i in range(step + 1) if m.fails[i]]))
+            elif written != before:
+                return hx.end(hx.fail("file changed in a timestep whose collection failed", step=step))
+        return hx.end(True)
+    finally:
+        del Col.open
+
+
 def file_window(wc: int, start: int, t0: int) -> bool:
     """
     pre: 0 <= wc <= 2
@@ -369,6 +493,11 @@ def obligations(tier):
         X("file_open_fails", file_open_fails, labels=("open_failed",), timeout=900,
           encoded=(Col.FileCollector.execute, Col.FileCollector.write_records),
           bounds={"write_count": "0..2", "steps": 6, "failing open": "any of the first four"}),
+        X("agent_callback_fails", agent_callback_fails, labels=("callback_failed", "one_left"), timeout=900,
+          encoded=(Col.AgentCollector.collect, Col.Collector.execute),
+          bounds={"agents": 3, "failing callback": "per-agent function at any agent / composite function", "then": "any one agent (or none) leaves, any agent may report nothing"}),
+        X("file_collect_fails", file_collect_fails, parts=[{"steps": 5 if tier == "quick" else 6}], labels=("collect_failed", "flush_after_failures"),
+          timeout=900, encoded=(Col.FileCollector.execute,), bounds={"write_count": "0..2", "failing collections": "any subset of the first five timesteps"}),
         X("agent_collect_window", agent_collect_window,
           parts=[{"f": f, "steps": s} for f, s in (((1, 3), (2, 3)) if tier == "quick" else ((1, 3), (2, 3), (2, 4), (3, 4)))] +
           [{"f": 1, "steps": 3, "swap_at": 1}],
